@@ -150,6 +150,7 @@ func runCheck(id, tier, repo, verif string, seed, jobs int) int {
 	solverSeed = seed
 	o := RunOpts{Repo: repo, Verif: verif, Props: map[string]bool{id: true}, Timeout: 20, Portfolio: []string{"z3-new", "z3", "cvc5"}, Jobs: jobs, MaxPaths: 20000}
 	if tier == "thorough" {
+		edgeCover = true // informational branch-reachability canaries (evidence: coverage.unreachable_branches)
 		o.Timeout = 120
 		o.CrossCheck = true
 	}
@@ -353,6 +354,8 @@ func runCheck(id, tier, repo, verif string, seed, jobs int) int {
 		"obligations_of_other_properties_skipped": skipped,
 	}
 	if o.CrossCheck {
+		sort.Strings(unreachableBranches)
+		cov["unreachable_branches"] = map[string]any{"rule": "for every conditional branch of every function under contract (outside inlined callees) the solver is asked whether each side can be reached under the precondition and the invariants in force; a side it refutes is listed here: defensive code (panic guards the contracts prove dead, nil-receiver branches excluded by a precondition) or, if unexpected, a contradiction in the assumptions. Informational: a listed branch is not a failure", "refuted": unreachableBranches}
 		cov["cross_check"] = map[string]any{"rule": "every obligation discharged by an SMT solver is put to a second, different solver (cvc5 after z3, z3 5.1.0 after cvc5) for 15 s; a contradicting 'sat' makes the obligation fail, a timeout/unknown of the second solver is only counted", "put_to_second_solver": crossTried, "confirmed_unsat_by_second_solver": crossConfirmed}
 	}
 	if rr != nil {
